@@ -178,6 +178,8 @@ def seq_case(res, W, rng, seq, final, interval, disp, ji=0):
     case = {"sequence": seq, "final": final, "interval": interval, "dispatcher": disp or "builtin", "on_reconnect": with_reconnect_cb,
             "ping": "ping_interval" in run_kwargs}
     res.case((seq, final, interval, disp, with_reconnect_cb), nontrivial=len(seq) >= 1)
+    res.count("connection_attempts_observed", len(run.attempts) if run else 0)
+    res.count("callbacks_observed", len(run.trace) if run else 0)
     if seq:
         res.count("runs_with_reconnect")
 
